@@ -178,6 +178,34 @@ def updateV : Val → Val → Val → Res Val
 def getAndUpdateV (x o m : Val) : Res (Val × Val) :=
   (getV x m).bind fun old => (updateV x o m).bind fun m' => .ok (old, m')
 
+/-! Big maps (inside one run): MEM / GET / UPDATE / GET_AND_UPDATE on a `big_map k v` are the operations of the finite map it
+denotes — the same ordered dictionary as for `map k v`. -/
+open Typing _root_.Spec.Coll in
+def memB : Val → Val → Res Val
+  | x, .bigMap k _ items => if goodMap k items && isKey k x then .ok (.bool (findKV keyLt x (kvs items)).isSome) else .stuck
+  | x, m => memV x m
+
+open Typing _root_.Spec.Coll in
+def getB : Val → Val → Res Val
+  | x, .bigMap k v items =>
+    if goodMap k items && isKey k x then
+      .ok (match findKV keyLt x (kvs items) with
+        | some y => .some y
+        | none => .none v)
+    else .stuck
+  | x, m => getV x m
+
+open Typing _root_.Spec.Coll in
+def updateB : Val → Val → Val → Res Val
+  | x, .none v', .bigMap k v items =>
+    if goodMap k items && isKey k x && v' == v then .ok (.bigMap k v (unkvs (eraseKV keyLt x (kvs items)))) else .stuck
+  | x, .some y, .bigMap k v items =>
+    if goodMap k items && isKey k x && typeOf y == v then .ok (.bigMap k v (unkvs (insertKV keyLt x y (kvs items)))) else .stuck
+  | x, o, m => updateV x o m
+
+def getAndUpdateB (x o m : Val) : Res (Val × Val) :=
+  (getB x m).bind fun old => (updateB x o m).bind fun m' => .ok (old, m')
+
 /-- `PAIR n` (n ≥ 2): `PAIR 2 = PAIR`, `PAIR (n+1) = DIP { PAIR n } ; PAIR` — folds the top `n` elements into a right comb -/
 def pairN : Nat → List Val → Option (Val × List Val)
   | 2, a :: b :: st => some (.pair a b, st)
@@ -555,6 +583,7 @@ def stepExt (env : Env) : Instr → List Val → Res (List Val)
   | .TRANSFER_TOKENS, _ => .stuck
   | .CHECK_SIGNATURE, a :: b :: c :: st => (checkSignatureV env a b c).bind fun r => .ok (r :: st)
   | .CHECK_SIGNATURE, _ => .stuck
+  | .EMPTY_BIG_MAP k v, st => if Typing.simpleComparable k && Typing.bigMapValue v then .ok (.bigMap k v [] :: st) else .stuck
   | i, a :: st => (unV env i a).bind fun r => .ok (r :: st)
   | _, [] => .stuck
 
@@ -592,7 +621,8 @@ def step (env : Env) : Instr → List Val → Res (List Val)
   | .PUSH _ v, st => .ok (v :: st)
   | .LAMBDA a b body, st => .ok (.lam a b body :: st)
   | .APPLY, x :: .lam (.pair ta tb) b body :: st =>
-    if typeOf x = ta then .ok (.lam tb b (.seq [.PUSH ta x, .PAIR, body]) :: st) else .stuck
+    -- the captured value is written into the code as a `PUSH`: its type has to be pushable
+    if typeOf x = ta ∧ Typing.pushable ta = true then .ok (.lam tb b (.seq [.PUSH ta x, .PAIR, body]) :: st) else .stuck
   | .FAILWITH, x :: _ => .failed x
   | .UNIT, st => .ok (.unit :: st)
   | .PAIR, x :: y :: st => .ok (.pair x y :: st)
@@ -624,10 +654,10 @@ def step (env : Env) : Instr → List Val → Res (List Val)
   | .EMPTY_MAP k v, st => .ok (.map k v [] :: st)
   | .EMPTY_SET t, st => if Typing.simpleComparable t then .ok (.set t [] :: st) else .stuck   -- elements must be comparable
   | .SIZE, .set _ xs :: st => .ok (.num .nat xs.length :: st)
-  | .MEM, a :: b :: st => (memV a b).bind fun r => .ok (r :: st)
-  | .GET, a :: b :: st => (getV a b).bind fun r => .ok (r :: st)
-  | .UPDATE, a :: b :: c :: st => (updateV a b c).bind fun r => .ok (r :: st)
-  | .GET_AND_UPDATE, a :: b :: c :: st => (getAndUpdateV a b c).bind fun r => .ok (r.1 :: r.2 :: st)
+  | .MEM, a :: b :: st => (memB a b).bind fun r => .ok (r :: st)
+  | .GET, a :: b :: st => (getB a b).bind fun r => .ok (r :: st)
+  | .UPDATE, a :: b :: c :: st => (updateB a b c).bind fun r => .ok (r :: st)
+  | .GET_AND_UPDATE, a :: b :: c :: st => (getAndUpdateB a b c).bind fun r => .ok (r.1 :: r.2 :: st)
   | .SIZE, .str x :: st => .ok (.num .nat x.length :: st)
   | .SIZE, .bytes x :: st => .ok (.num .nat x.length :: st)
   | .SIZE, .list _ xs :: st => .ok (.num .nat xs.length :: st)
